@@ -50,6 +50,14 @@ pub fn install_panic_hook() {
     });
 }
 
+/// Mark this thread as running a simulation (panics are recorded silently).
+pub fn set_in_sim(on: bool) {
+    IN_SIM.with(|c| c.set(on));
+    if on {
+        PANIC_INFO.with(|p| *p.borrow_mut() = None);
+    }
+}
+
 /// The location and message of the last panic caught on this thread during a simulation.
 pub fn take_panic_info() -> Option<String> {
     PANIC_INFO.with(|p| p.borrow_mut().take())
@@ -206,7 +214,7 @@ pub fn run_built(sc: Scenario, built: Result<Tracer, String>, tape: Tape, opts: 
     let end = match built {
         Err(e) => RunEnd::Rejected(e),
         Ok(tracer) => {
-            clock::enable(t_start, sc.faults.tick_base_ns, sc.faults.tick_jitter_ns, tick_seed);
+            clock::enable(t_start, sc.faults.tick_base_ns.max(1), sc.faults.tick_jitter_ns, tick_seed);
             clock::set_logging(opts.clock_log);
             if let Some(m) = sc.mutation {
                 // the enumerated corruption is part of what distinguishes one run from another
